@@ -9,14 +9,14 @@ import random
 from .labels import csort, enc
 
 NODE_U = {
-    "ints": [0, 1, 2, 3, 4, -2, -1, 7],  # hash(-1) == hash(-2) in CPython
+    "ints": [0, 1, 2, 3, 4, -2, -1, 1000],  # hash(-1) == hash(-2) in CPython; 1000 is not a cached small int
     "strs": ["a", "b", "c", "d", "e", "1", "2", "zz"],
     "mixed": [0, 1, 2, 3, "a", "b", "1", 4.0],
     "wide": list(range(14)),  # more than ten nodes: two-digit positions
     "large": list(range(40)),  # size thresholds
 }
 EDGE_U = {
-    "ints": [0, 1, 2, 3, 5, 8, -1, -2],
+    "ints": [0, 1, 2, 3, 5, 8, -1, -2, 700],
     "strs": ["e0", "e1", "x", "0", "1", "7"],
     "mixed": [0, 1, "x", "1", 2.0, (0, 1), 5, 7],
     "wide": [0, 1, 2, 3, 5, 8, 11, 13, 21],
@@ -83,6 +83,11 @@ class Gen:
             x = self.r.choice(list(model.edges))
             if not (dh and isinstance(x, tuple)):
                 return x
+        if self.profile not in ("strs", "cross_is") and self.r.random() < 0.12:
+            # an explicit ID just ahead of the largest integer ID: where the automatic counter is
+            # about to arrive
+            ints = [e for e in model.edges if type(e) is int]
+            return (max(ints) if ints else 0) + self.r.randint(1, 4)
         # (tuple edge IDs are never sent through DiHypergraph bulk formats 2/4: the format
         # sniffing reads an iterable second element as a head -- documented ambiguity)
         u = [x for x in self.edge_u() if not (dh and isinstance(x, tuple))]
@@ -199,6 +204,12 @@ class Gen:
 
     def gen_mutation(self, name, actor):
         m = actor.model
+        if m.kind == "SC" and getattr(actor, "last_raised", False) and not m.frozen and self.r.random() < 0.35:
+            # right after a call that raised half-way: a simplex with new faces and automatic IDs
+            # (the ID bookkeeping of the interrupted call is what the next automatic IDs meet)
+            mem = self.members(m, 3, 4, 0.4)
+            if len(mem) >= 3:
+                return self.rec(name, "add_simplex", {"members": mem, "idx": None, "attr": {}, "mtype": "list"})
         table = self.cfg["ops"][m.kind]
         op = self.weighted(table)
         f = getattr(self, "g_" + m.kind + "_" + op, None) or getattr(self, "g_" + op, None) or \
@@ -317,11 +328,48 @@ class Gen:
                 pass
         return items
 
+    def _shared(self, m, fmt, items, dh=False):
+        """now and then a bunch built from one object: a copy of an item (under another ID) whose
+        members container and attribute dict are the very same Python objects"""
+        if not items or self.r.random() > 0.12:
+            return False
+        from copy import deepcopy
+        k = self.r.randrange(len(items))
+        if isinstance(items[k][2], dict):
+            # (a nested mutable value in a dict that two items share is legitimately shared by the
+            # two edges -- xgi copies attribute dicts shallowly; only plain values here)
+            items[k][2] = {a: v for a, v in items[k][2].items() if isinstance(v, (int, float, str, bool, type(None)))}
+        dup = deepcopy(items[k])
+        if fmt in (2, 4, 5):
+            dup[1] = self.new_idx(m, dh=dh)
+        items.insert(k + 1, dup)
+        if k == 0:  # (the first item's objects are inspected by the format sniffing and not shared)
+            dup2 = deepcopy(dup)
+            if fmt in (2, 4, 5):
+                dup2[1] = self.new_idx(m, dh=dh)
+            items.insert(k + 1, dup2)
+        if dh and self.r.random() < 0.5:
+            items[k + 1][0][1] = list(items[k + 1][0][0])  # head equal to the tail: one object for both
+        return True
+
+    def _junk_ahead(self, m, fmt, items, fault):
+        """the item whose attribute payload will make the call raise is stored under an ID just
+        ahead of the largest integer ID (the ID bookkeeping of that item is then cut short)"""
+        if fault and fault["kind"] == "attr_junk" and fmt == 4 and len(items) >= 2 and self.r.random() < 0.5 \
+                and self.profile not in ("strs", "cross_is"):
+            i = 1 + fault.get("item", 0) % (len(items) - 1)
+            ints = [e for e in m.edges if type(e) is int]
+            items[i][1] = (max(ints) if ints else 0) + self.r.randint(1, 3)
+
     def g_H_add_edges_from(self, name, m, op):
         fmt = self.r.choice(self.cfg.get("bulk_fmts", [1, 1, 2, 3, 4, 5]))
         items = self._bulk_items(m, fmt)
+        if self._shared(m, fmt, items):
+            return self.rec(name, op, {"fmt": fmt, "items": items, "attr": self.attr(), "mtype": self.r.choice(["list", "set"]),
+                                       "stream": "list", "share": True})
         fault = self.maybe_fault(["none_member", "unhashable_member", "dying", "empty_in_bulk", "attr_pairs",
                                   "attr_junk", "exotic_id"], len(items))
+        self._junk_ahead(m, fmt, items, fault)
         return self.rec(name, op, {"fmt": fmt, "items": items, "attr": self.attr(), "mtype": self.mtype(),
                                    "stream": self.stream()}, fault)
 
@@ -449,6 +497,9 @@ class Gen:
     def g_DH_add_edges_from(self, name, m, op):
         fmt = self.r.choice(self.cfg.get("bulk_fmts", [1, 1, 2, 3, 4, 5]))
         items = self._bulk_items(m, fmt, dh=True)
+        if self._shared(m, fmt, items, dh=True):
+            return self.rec(name, op, {"fmt": fmt, "items": items, "attr": self.attr(), "mtype": self.r.choice(["list", "set"]),
+                                       "stream": "list", "share": True})
         fault = self.maybe_fault(["none_member", "unhashable_member", "dying", "attr_pairs", "attr_junk", "exotic_id"],
                                  len(items))
         return self.rec(name, op, {"fmt": fmt, "items": items, "attr": self.attr(), "mtype": self.mtype(),
@@ -526,6 +577,7 @@ class Gen:
         items = self._sc_items(m, fmt, mo is not None)
         fault = self.maybe_fault(["none_member", "unhashable_member", "dying", "empty_in_bulk", "attr_pairs",
                                   "attr_junk", "exotic_id"], len(items))
+        self._junk_ahead(m, fmt, items, fault)
         return self.rec(name, op, {"fmt": fmt, "items": items, "attr": self.attr(), "max_order": mo,
                                    "mtype": self.mtype(), "stream": self.stream()}, fault)
 
